@@ -104,6 +104,7 @@ class Analysis:
         self.threads = {}
         self.caller_tid = None
         self.struct_errors = []
+        self.unpublished = 0
         self.rounds = []
         self._build()
 
@@ -111,7 +112,9 @@ class Analysis:
         run = self.run
         for ev in run.events:
             if ev.kind == 0:
-                self.struct_errors.append("unpublished slot #%d" % ev.seq)
+                # claimed but not (visibly) written: an event of a thread that is not synchronised with the
+                # reader, i.e. one still tearing down after the run; counted, never interpreted
+                self.unpublished += 1
                 continue
             tv = self.threads.get(ev.tid)
             if tv is None:
@@ -1021,3 +1024,13 @@ ALL_CHECKS = {
     "C08": [check_c08_order, check_c02],
     "C19": [check_c19],
 }
+
+
+def check_c02_for_c08(an):
+    """C08's 'each thread's sample reports only that thread's own allocations' (distinct per-thread scripts)."""
+    vs, info = check_c02(an)
+    out = []
+    for v in vs:
+        if v.code == "alloc_figures_mismatch":
+            out.append(V("C08", "own_allocations_only", v.msg, v.witness))
+    return out, {"samples_compared_c08": info.get("samples_compared", 0)}
